@@ -249,6 +249,29 @@ def main(argv):
         prop, seed, first, n = argv[2], int(argv[3]), int(argv[4]), int(argv[5])
         print("DIGESTS " + json.dumps(digests_of(prop, seed, first, n, 16)))
         return 0
+    if cmd == "minimise":
+        # minimise <Cxx> <seed> <run> [signature substring] [outdir]
+        core.import_unyt()
+        prop = argv[2]
+        res = runner.run_one({"prop": prop, "seed": int(argv[3]), "run": int(argv[4])})
+        if "harness_error" in res:
+            print("HARNESS-ERROR", res["harness_error"])
+            return 2
+        want = argv[5] if len(argv) > 5 else ""
+        vs = [v for v in res["violations"] if want in v["sig"]]
+        if not vs:
+            print("no such violation; fired:", [v["sig"] for v in res["violations"]])
+            return 0
+        ops, cfg, v2, mstats = minimise.minimise(res, vs[0])
+        global REPLAY_DIR
+        if len(argv) > 6:
+            REPLAY_DIR = os.path.join(HERE, argv[6])
+        path = write_replay(prop, res, ops, cfg, v2, mstats)
+        print(v2["sig"], mstats)
+        for o in ops:
+            print("   ", json.dumps(o, ensure_ascii=False))
+        print(f"VIOLATION property={prop} replay={path}")
+        return 1
     if cmd == "show":
         core.import_unyt()
         res = runner.run_one({"prop": argv[2], "seed": int(argv[3]), "run": int(argv[4])})
